@@ -66,6 +66,19 @@ def oracle(ctx, kind, p):
         name = p['model']
         _, m, rm, spec = M.get(name)
         chain = name.startswith('chain')
+        if spec is not None:
+            # from_dict builds the class it is called on
+            from penman.model import Model
+            from penman.models.noop import NoOpModel
+            d = {'roles': spec.get('roles'), 'normalizations': spec.get('normalizations'),
+                 'reifications': [tuple(r) for r in spec.get('reifications', [])]}
+            for cls in (Model, NoOpModel):
+                ok, m2 = ctx.call(cls.from_dict, d, clause='from_dict')
+                if ok and (type(m2) is not cls or (cls is Model and m2 != m)):
+                    ctx.fail('from_dict:class-or-content', detail={'model': name, 'class': cls.__name__,
+                                                                   'got': type(m2).__name__})
+                if ok and cls is NoOpModel and m2.deinvert(('s', ':zz-of', 't')) != ('s', ':zz-of', 't'):
+                    ctx.fail('deinvert:noop-identity(from_dict)', detail={'model': name})
         for b in bases_for(rm):
             for k in range(0, 5):
                 for colon in (True, False):
@@ -171,6 +184,10 @@ def check_role(ctx, name, m, rm, b, k, r, rin, chain):
         ok, it = ctx.call(m.invert, tr, clause='invert')
         if ok and it != ('t', i1, 's'):
             ctx.fail('invert:swap', detail=dict(det, got=it))
+        for tgt in (5, 2.5, None):
+            ok, it = ctx.call(m.invert, ('s', r, tgt), clause='invert')
+            if ok and (it != (tgt, i1, 's') or type(it[0]) is not type(tgt)):
+                ctx.fail('invert:swap(non-str target)', detail=dict(det, target=repr(tgt), got=repr(it)))
         ok, dt = ctx.call(m.deinvert, tr, clause='deinvert')
         if ok:
             if rm.noop:
